@@ -1,8 +1,1776 @@
-//! C18 — stub, to be written.
+//! C18 — reports stay well-formed whatever the names and source text contain.
+//!
+//! Three streams, all from one `Rng::new(seed ^ TAG)`:
+//!  * `esc`    the real escape routines (quick-xml `escape` / `push_attribute` / `BytesText::new` /
+//!             `partial_escape`, serde_json's string writer, Tera's auto-escape reached through
+//!             `grcov::html::gen_dir_index`) on generated strings, byte for byte against the Lean
+//!             driver `gm_c18`, plus an independent oracle (own strict decoders);
+//!  * `dec`    the reader side of the model (`unescapeEnt`, `jsonUnescape`) against quick-xml's
+//!             `unescape` and serde_json's parser on escaped and deliberately broken inputs;
+//!  * `report` whole reports: hostile paths / function names / source lines through the real
+//!             `output_cobertura`, `output_coveralls`, `output_covdir`, `output_activedata_etl`,
+//!             `output_html`, read back by tools/c18_decode.py (expat, json, html.parser) and
+//!             compared with (a) the original names and (b) the shape of a benign twin report.
 use corrlib::*;
+use grcov::html::HtmlResources;
+use grcov::{CovResult, Function, HtmlDirStats, HtmlFileStats, HtmlStats, ResultTuple};
+use quick_xml::events::{BytesStart, BytesText, Event};
+use serde_json::{json, Value};
+use std::collections::{BTreeMap, BTreeSet};
+use std::panic::AssertUnwindSafe;
+use std::path::{Path, PathBuf};
 
-pub fn run(_rep: &mut Report) {}
-pub fn replay(_rep: &mut Report, _case: &serde_json::Value) {}
+const TAG: u64 = 0xC18;
+const FINDING_ABS_PREFIX: &str = "C18-abs-prefix-href";
+
+// ---------------------------------------------------------------------------------------------
+// generators
+
+const META: &[&str] = &[
+    "<", ">", "&", "'", "\"", "/", "\\", ";", "#", "=", " ", "]", "[", "!", "-", "?", ":", "%",
+    "{", "}", ",", "`", "|", "$", "(", ")", "*", "+", "@", "^", "~", ".",
+];
+const FRAGS: &[&str] = &[
+    "]]>", "&amp;", "&lt;", "&gt;", "&#x27;", "&#60;", "&quot;", "&apos;", "&#x2F;",
+    "<script>alert(1)</script>", "</pre>", "</a>", "\"/>", "-->", "<!--", "<![CDATA[", "\\u0022",
+    "\\\"", "\\\\", "\\n", "javascript:", "{{ x }}", "{% raw %}", "{#", "<b id=pwn>", "\"><",
+    "' onmouseover='", "\" onclick=\"", "\",\"x\":\"", "\"}]}", "&", "&#", "&;", "%22", "%3C",
+    "<?xml", "<!DOCTYPE x [", "</coverage>", "<package name=\"p\">", "&#x0;", "&nbsp;", "\\",
+    "</title>", "<li class=\"is-active\">",
+];
+const NONASCII: &[&str] = &[
+    "é", "ü", "ß", "Ω", "Ж", "名", "前", "中", "😀", "🦀", "\u{a0}", "¿", "€", "\u{fffd}", "e\u{301}",
+    "ا", "\u{ff1c}", "\u{2039}", "\u{201c}", "\u{ff02}", "\u{10fffd}", "\u{7ff}", "\u{800}",
+    "\u{fffc}", "\u{10000}", "ǅ", "İ",
+];
+/// characters that are outside the property's quantifier (controls, line terminators) – used only
+/// in the escape-routine tie, never in report names
+const CONTROLS: &[&str] = &[
+    "\u{0}", "\u{1}", "\u{8}", "\t", "\n", "\u{b}", "\u{c}", "\r", "\u{1b}", "\u{1f}", "\u{7f}",
+    "\u{85}", "\u{2028}", "\u{2029}", "\u{ffff}", "\u{10ffff}", "\u{fffe}",
+];
+
+fn pick_str(rng: &mut Rng, xs: &[&'static str]) -> &'static str {
+    xs[rng.below(xs.len() as u64) as usize]
+}
+
+fn alnum(rng: &mut Rng) -> String {
+    const A: &[u8] = b"abcdefghijklmnopqrstuvwxyzABCDEFGHIJKLMNOPQRSTUVWXYZ0123456789_";
+    let n = rng.range(1, 6);
+    (0..n).map(|_| *rng.pick(A) as char).collect()
+}
+
+/// a string of printable Unicode characters; `pieces` elements drawn from metacharacters, hostile
+/// fragments, plain runs and non-ASCII characters
+fn gen_pieces(rng: &mut Rng, pieces: u64) -> String {
+    let mut s = String::new();
+    for _ in 0..pieces {
+        match rng.below(100) {
+            0..=34 => s.push_str(pick_str(rng, META)),
+            35..=59 => s.push_str(pick_str(rng, FRAGS)),
+            60..=79 => s.push_str(&alnum(rng)),
+            _ => s.push_str(pick_str(rng, NONASCII)),
+        }
+    }
+    s
+}
+
+fn gen_name(rng: &mut Rng) -> String {
+    match rng.below(200) {
+        0 => {
+            // very long
+            let unit = gen_pieces(rng, 40);
+            let unit = if unit.is_empty() { "<&\">".to_string() } else { unit };
+            let target = rng.range(20_000, 90_000) as usize;
+            let mut s = String::new();
+            while s.len() < target {
+                s.push_str(&unit);
+            }
+            s
+        }
+        1..=12 => {
+            let n = rng.range(60, 300);
+            gen_pieces(rng, n)
+        }
+        13..=16 => String::new(),
+        17..=40 => rng.pick(FRAGS).to_string(),
+        41..=60 => rng.pick(META).to_string(),
+        _ => {
+            let n = rng.range(1, 12);
+            gen_pieces(rng, n)
+        }
+    }
+}
+
+fn gen_name_with_controls(rng: &mut Rng) -> String {
+    let mut s = String::new();
+    let k = rng.range(1, 4);
+    for _ in 0..k {
+        let n = rng.range(0, 3);
+        s.push_str(&gen_pieces(rng, n));
+        s.push_str(pick_str(rng, CONTROLS));
+    }
+    let n = rng.range(0, 2);
+    s.push_str(&gen_pieces(rng, n));
+    s
+}
+
+fn truncate_chars(s: &str, max_bytes: usize) -> String {
+    let mut out = String::new();
+    for c in s.chars() {
+        if out.len() + c.len_utf8() > max_bytes {
+            break;
+        }
+        out.push(c);
+    }
+    out
+}
+
+/// one path component: printable, no `/`, not `.`/`..`, not ending in `.`, at most 100 bytes
+fn gen_component(rng: &mut Rng) -> String {
+    let n = rng.range(1, 8);
+    let raw = if rng.chance(1, 6) { alnum(rng) } else { gen_pieces(rng, n) };
+    let mut s: String = raw.chars().filter(|&c| c != '/' && c != '\0').collect();
+    s = truncate_chars(&s, 100);
+    if s.is_empty() || s == "." || s == ".." || s.ends_with('.') {
+        s.push('x');
+    }
+    s
+}
+
+fn is_meta_str(s: &str) -> bool {
+    s.bytes().any(|b| matches!(b, b'<' | b'>' | b'&' | b'\'' | b'"' | b'/' | b'\\') || b < 0x20)
+}
+
+// ---------------------------------------------------------------------------------------------
+// independent reference decoders / predicates (the property oracle; nothing here calls grcov,
+// quick-xml, serde_json's writer or Tera)
+
+fn ref_unescape_entities(s: &str) -> Option<String> {
+    let mut out = String::new();
+    let mut it = s.char_indices();
+    while let Some((i, c)) = it.next() {
+        if c != '&' {
+            out.push(c);
+            continue;
+        }
+        let rest = &s[i + 1..];
+        let end = rest.find(';')?;
+        let name = &rest[..end];
+        let ch = match name {
+            "lt" => '<',
+            "gt" => '>',
+            "amp" => '&',
+            "apos" => '\'',
+            "quot" => '"',
+            _ => {
+                let num = name.strip_prefix('#')?;
+                let (digits, radix) = match num.strip_prefix('x') {
+                    Some(h) => (h, 16),
+                    None => (num, 10),
+                };
+                if digits.is_empty() || !digits.chars().all(|d| d.is_digit(radix)) {
+                    return None;
+                }
+                let cp = u32::from_str_radix(digits, radix).ok()?;
+                if cp == 0 {
+                    return None;
+                }
+                char::from_u32(cp)?
+            }
+        };
+        out.push(ch);
+        for _ in 0..end + 1 {
+            it.next();
+        }
+    }
+    Some(out)
+}
+
+/// decode the body of a JSON string literal (RFC 8259), rejecting raw quotes and control bytes
+fn ref_json_unquote(body: &str) -> Option<String> {
+    let mut out = String::new();
+    let cs: Vec<char> = body.chars().collect();
+    let mut i = 0;
+    while i < cs.len() {
+        let c = cs[i];
+        if c == '"' || (c as u32) < 0x20 {
+            return None;
+        }
+        if c != '\\' {
+            out.push(c);
+            i += 1;
+            continue;
+        }
+        let e = *cs.get(i + 1)?;
+        i += 2;
+        match e {
+            '"' => out.push('"'),
+            '\\' => out.push('\\'),
+            '/' => out.push('/'),
+            'b' => out.push('\u{8}'),
+            'f' => out.push('\u{c}'),
+            'n' => out.push('\n'),
+            'r' => out.push('\r'),
+            't' => out.push('\t'),
+            'u' => {
+                if i + 4 > cs.len() {
+                    return None;
+                }
+                let h: String = cs[i..i + 4].iter().collect();
+                if !h.chars().all(|d| d.is_ascii_hexdigit()) {
+                    return None;
+                }
+                let cp = u32::from_str_radix(&h, 16).ok()?;
+                out.push(char::from_u32(cp)?);
+                i += 4;
+            }
+            _ => return None,
+        }
+    }
+    Some(out)
+}
+
+/// every `&` is the first byte of one of `ents`
+fn amp_ok(out: &str, ents: &[&str]) -> bool {
+    out.match_indices('&')
+        .all(|(i, _)| ents.iter().any(|e| out[i..].starts_with(e)))
+}
+
+const XML_ENTS: &[&str] = &["&lt;", "&gt;", "&amp;", "&apos;", "&quot;"];
+const HTML_ENTS: &[&str] = &["&amp;", "&lt;", "&gt;", "&quot;", "&#x27;", "&#x2F;"];
+
+/// reference HTML escaper, used only to *repair* a page when classifying the known finding
+fn ref_html_escape(s: &str) -> String {
+    let mut o = String::new();
+    for c in s.chars() {
+        match c {
+            '&' => o.push_str("&amp;"),
+            '<' => o.push_str("&lt;"),
+            '>' => o.push_str("&gt;"),
+            '"' => o.push_str("&quot;"),
+            '\'' => o.push_str("&#x27;"),
+            '/' => o.push_str("&#x2F;"),
+            _ => o.push(c),
+        }
+    }
+    o
+}
+
+/// the property on one escaped string; `None` = holds
+fn oracle_escaped(routine: &str, s: &str, out: &str) -> Option<String> {
+    match routine {
+        "xmlattr" | "xmltext" => {
+            if out.contains(['<', '>', '"', '\'']) {
+                return Some(format!("{}: raw metacharacter in the escaped value", routine));
+            }
+            if !amp_ok(out, XML_ENTS) {
+                return Some(format!("{}: an '&' does not start an emitted entity", routine));
+            }
+            if ref_unescape_entities(out).as_deref() != Some(s) {
+                return Some(format!("{}: decoding the escaped value does not give the name back", routine));
+            }
+        }
+        "xmlpartial" => {
+            if out.contains(['<', '>']) || !amp_ok(out, XML_ENTS) {
+                return Some("xmlpartial: raw metacharacter".into());
+            }
+            if ref_unescape_entities(out).as_deref() != Some(s) {
+                return Some("xmlpartial: round trip fails".into());
+            }
+        }
+        "json" => {
+            if out.bytes().any(|b| b < 0x20) {
+                return Some("json: raw control byte in the string literal".into());
+            }
+            if ref_json_unquote(out).as_deref() != Some(s) {
+                return Some("json: decoding the literal does not give the name back".into());
+            }
+        }
+        "html" => {
+            if out.contains(['<', '>', '"', '\'']) {
+                return Some("html: raw metacharacter in escaped text".into());
+            }
+            if !amp_ok(out, HTML_ENTS) {
+                return Some("html: an '&' does not start an emitted reference".into());
+            }
+            if ref_unescape_entities(out).as_deref() != Some(s) {
+                return Some("html: decoding the escaped text does not give the text back".into());
+            }
+        }
+        _ => {}
+    }
+    None
+}
+
+// ---------------------------------------------------------------------------------------------
+// the real routines
+
+fn xhex(b: &[u8]) -> String {
+    format!("x{}", hex(b))
+}
+
+fn impl_push_attribute(s: &str) -> Result<String, String> {
+    let mut w = quick_xml::Writer::new(std::io::Cursor::new(Vec::new()));
+    let mut e = BytesStart::new("e");
+    e.push_attribute(("a", s));
+    w.write_event(Event::Empty(e)).map_err(|e| e.to_string())?;
+    let v = w.into_inner().into_inner();
+    let pre = b"<e a=\"";
+    let suf = b"\"/>";
+    if v.len() < pre.len() + suf.len() || !v.starts_with(pre) || !v.ends_with(suf) {
+        return Err("unexpected frame around the attribute".into());
+    }
+    Ok(xhex(&v[pre.len()..v.len() - suf.len()]))
+}
+
+fn impl_bytes_text(s: &str) -> Result<String, String> {
+    let mut w = quick_xml::Writer::new(std::io::Cursor::new(Vec::new()));
+    w.write_event(Event::Text(BytesText::new(s)))
+        .map_err(|e| e.to_string())?;
+    Ok(xhex(&w.into_inner().into_inner()))
+}
+
+fn strip_quotes(lit: &str) -> Result<&str, String> {
+    if lit.len() >= 2 && lit.starts_with('"') && lit.ends_with('"') {
+        Ok(&lit[1..lit.len() - 1])
+    } else {
+        Err("serde_json did not write a quoted literal".into())
+    }
+}
+
+fn impl_json(s: &str) -> Result<String, String> {
+    let a = serde_json::to_string(s).map_err(|e| e.to_string())?;
+    let a = strip_quotes(&a)?.to_string();
+    // the way output.rs does it: a PathBuf / String inside json!({...}) written with to_writer
+    let v = json!({ "name": PathBuf::from(s) });
+    let mut buf = Vec::new();
+    serde_json::to_writer(&mut buf, &v).map_err(|e| e.to_string())?;
+    let b = String::from_utf8(buf).map_err(|e| e.to_string())?;
+    let b = b
+        .strip_prefix("{\"name\":")
+        .and_then(|x| x.strip_suffix('}'))
+        .ok_or("unexpected object frame")?;
+    let b = strip_quotes(b)?;
+    if a != b {
+        return Err("to_string and json!/to_writer disagree".into());
+    }
+    Ok(xhex(a.as_bytes()))
+}
+
+/// Tera's auto-escape, reached through the real index template: one directory page whose file
+/// names are `names`; returns name -> (escaped href without the `.html` suffix, escaped text)
+fn impl_tera_rows(names: &BTreeSet<String>, outdir: &Path) -> Result<Vec<(String, String, String)>, String> {
+    let (tera, conf) = grcov::html::get_config(None, false, 2, true, HtmlResources::Cdn);
+    let mut files = BTreeMap::new();
+    for n in names {
+        files.insert(
+            n.clone(),
+            HtmlFileStats {
+                stats: HtmlStats::default(),
+                abs_prefix: None,
+            },
+        );
+    }
+    let ds = HtmlDirStats {
+        files,
+        stats: HtmlStats::default(),
+        abs_prefix: None,
+    };
+    let _ = std::fs::remove_dir_all(outdir);
+    guarded(AssertUnwindSafe(|| grcov::html::gen_dir_index(&tera, "d", &ds, &conf, outdir)))
+        .map_err(|p| format!("panic {}", p))?;
+    let page = std::fs::read(outdir.join("d/index.html")).map_err(|e| e.to_string())?;
+    let page = String::from_utf8(page).map_err(|e| e.to_string())?;
+    let open = "<th><a href=\"";
+    let close = "</a></th>";
+    let mut rows = vec![];
+    let mut rest = page.as_str();
+    while let Some(i) = rest.find(open) {
+        let after = &rest[i + open.len()..];
+        let j = after.find(close).ok_or("row not closed")?;
+        let row = &after[..j];
+        let k = row.find("\">").ok_or("href not closed")?;
+        rows.push((row[..k].to_string(), row[k + 2..].to_string()));
+        rest = &after[j + close.len()..];
+    }
+    if rows.len() != names.len() {
+        return Err(format!("{} rows for {} names", rows.len(), names.len()));
+    }
+    Ok(names
+        .iter()
+        .zip(rows)
+        .map(|(n, (h, t))| (n.clone(), h, t))
+        .collect())
+}
+
+// ---------------------------------------------------------------------------------------------
+// stream 1: escape routines
+
+struct EscCase {
+    name: String,
+    /// routine -> observations of the implementation (each must equal the model's answer)
+    obs: Vec<(&'static str, Vec<Result<String, String>>)>,
+}
+
+fn esc_observe(name: &str) -> Vec<(&'static str, Vec<Result<String, String>>)> {
+    let g = |f: &dyn Fn() -> Result<String, String>| -> Result<String, String> {
+        match guarded(AssertUnwindSafe(f)) {
+            Ok(r) => r,
+            Err(p) => Err(format!("panic {}", p)),
+        }
+    };
+    vec![
+        (
+            "xmlattr",
+            vec![
+                g(&|| Ok(xhex(quick_xml::escape::escape(name).as_bytes()))),
+                g(&|| impl_push_attribute(name)),
+            ],
+        ),
+        ("xmltext", vec![g(&|| impl_bytes_text(name))]),
+        (
+            "xmlpartial",
+            vec![g(&|| Ok(xhex(quick_xml::escape::partial_escape(name).as_bytes())))],
+        ),
+        ("json", vec![g(&|| impl_json(name))]),
+        ("html", vec![]),
+    ]
+}
+
+fn unx(ans: &str) -> Option<String> {
+    ans.strip_prefix('x')
+        .and_then(|h| String::from_utf8(unhex(h)).ok())
+}
+
+/// compare one case with the model's answers; returns the failures
+fn esc_judge(rep: &mut Report, c: &EscCase, model: &[String]) {
+    for (k, (routine, obs)) in c.obs.iter().enumerate() {
+        let m = &model[k];
+        for o in obs {
+            let case = json!({"op": "esc", "routine": routine, "name": hex(c.name.as_bytes()),
+                              "impl": o.clone().unwrap_or_else(|e| format!("error {}", e)), "model": m});
+            let orc = match o {
+                Ok(ans) => match unx(ans) {
+                    Some(out) => oracle_escaped(routine, &c.name, &out),
+                    None => Some("implementation output is not UTF-8".into()),
+                },
+                Err(e) => Some(format!("{}: {}", routine, e)),
+            };
+            if let Some(w) = orc {
+                let case = shrink_esc_oracle(routine, &c.name).unwrap_or(case);
+                rep.fail("oracle", None, w, case);
+            } else if o.as_ref().ok() != Some(m) {
+                rep.disagreements_checked += 1;
+                rep.fail(
+                    "disagreement",
+                    None,
+                    format!("{}: real routine and Escape model differ (the C18 escape theorems no longer transfer)", routine),
+                    case,
+                );
+            }
+        }
+    }
+}
+
+/// the real routine `routine` on `s` (html goes through the template, one name per page)
+fn impl_one(routine: &str, s: &str, workdir: &Path) -> Result<String, String> {
+    match routine {
+        "xmlattr" => impl_push_attribute(s),
+        "xmltext" => impl_bytes_text(s),
+        "xmlpartial" => Ok(xhex(quick_xml::escape::partial_escape(s).as_bytes())),
+        "json" => impl_json(s),
+        "html" => {
+            let mut set = BTreeSet::new();
+            set.insert(s.to_string());
+            let rows = impl_tera_rows(&set, &workdir.join("tera1"))?;
+            Ok(xhex(rows[0].2.as_bytes()))
+        }
+        _ => Err("unknown routine".into()),
+    }
+}
+
+/// shortest substring (by greedy character deletion) on which the oracle still fails
+fn shrink_esc_oracle(routine: &str, name: &str) -> Option<Value> {
+    if routine == "html" || name.len() > 4000 {
+        return None;
+    }
+    let wd = PathBuf::from("/verif/work/C18");
+    let fails = |s: &str| -> bool {
+        match guarded(AssertUnwindSafe(|| impl_one(routine, s, &wd))) {
+            Ok(Ok(ans)) => match unx(&ans) {
+                Some(out) => oracle_escaped(routine, s, &out).is_some(),
+                None => true,
+            },
+            _ => true,
+        }
+    };
+    let mut cur: Vec<char> = name.chars().collect();
+    if !fails(&cur.iter().collect::<String>()) {
+        return None;
+    }
+    let mut i = 0;
+    while i < cur.len() {
+        let mut t = cur.clone();
+        t.remove(i);
+        if fails(&t.iter().collect::<String>()) {
+            cur = t;
+        } else {
+            i += 1;
+        }
+    }
+    let s: String = cur.iter().collect();
+    Some(json!({"op": "esc", "routine": routine, "name": hex(s.as_bytes()), "shrunk_from_len": name.len()}))
+}
+
+fn esc_stream(rep: &mut Report, rng: &mut Rng) {
+    let n = rep.budget(4000, 8);
+    let mut names: Vec<String> = vec![
+        // fixed seeds: the DESIGN witness, every metacharacter, the fragments of the task text
+        "x\"><b id=pwn>".into(),
+        "<>&'\"/\\".into(),
+        "]]>".into(),
+        "&amp;".into(),
+        "".into(),
+    ];
+    while (names.len() as u64) < n {
+        if rng.chance(1, 8) {
+            names.push(gen_name_with_controls(rng));
+        } else {
+            names.push(gen_name(rng));
+        }
+    }
+    let mut cases: Vec<EscCase> = names
+        .iter()
+        .map(|s| EscCase {
+            name: s.clone(),
+            obs: esc_observe(s),
+        })
+        .collect();
+    // Tera: batches of distinct names through the real template
+    let mut tera_out: BTreeMap<String, Result<(String, String), String>> = BTreeMap::new();
+    let distinct: Vec<String> = names.iter().cloned().collect::<BTreeSet<_>>().into_iter().collect();
+    for (bi, chunk) in distinct.chunks(64).enumerate() {
+        let set: BTreeSet<String> = chunk.iter().cloned().collect();
+        match impl_tera_rows(&set, &rep.workdir.join("tera")) {
+            Ok(rows) => {
+                for (n, h, t) in rows {
+                    tera_out.insert(n, Ok((h, t)));
+                }
+            }
+            Err(e) => {
+                for n in chunk {
+                    tera_out.insert(n.clone(), Err(format!("batch {}: {}", bi, e)));
+                }
+            }
+        }
+        rep.count("esc.tera_pages");
+    }
+    for c in cases.iter_mut() {
+        let r = tera_out.get(&c.name).cloned().unwrap_or(Err("missing".into()));
+        let obs = match r {
+            Ok((href, text)) => vec![
+                Ok(xhex(text.as_bytes())),
+                // the href is html(name ~ ".html") = html(name) ++ ".html"
+                href.strip_suffix(".html")
+                    .map(|h| xhex(h.as_bytes()))
+                    .ok_or_else(|| "href does not end in .html".to_string()),
+            ],
+            Err(e) => vec![Err(e)],
+        };
+        c.obs.last_mut().unwrap().1 = obs;
+    }
+    // the model
+    let mut reqs = vec![];
+    for c in &cases {
+        for (routine, _) in &c.obs {
+            reqs.push(format!("{} x{}", routine, hex(c.name.as_bytes())));
+        }
+    }
+    let answers = run_model_named("gm_c18", &reqs, &rep.workdir, "esc");
+    let per = cases[0].obs.len();
+    for (i, c) in cases.iter().enumerate() {
+        let canonical = hex(c.name.as_bytes());
+        rep.case(&canonical, is_meta_str(&c.name));
+        rep.count(match c.name.len() {
+            0 => "esc.len.0",
+            1..=8 => "esc.len.1-8",
+            9..=64 => "esc.len.9-64",
+            65..=4096 => "esc.len.65-4096",
+            _ => "esc.len.>4096",
+        });
+        if c.name.bytes().any(|b| b < 0x20 || b == 0x7f) {
+            rep.count("esc.with_control_chars");
+        }
+        if !c.name.is_ascii() {
+            rep.count("esc.non_ascii");
+        }
+        for (b, key) in [(b'<', "esc.has.lt"), (b'&', "esc.has.amp"), (b'"', "esc.has.dquote"),
+                         (b'\'', "esc.has.squote"), (b'/', "esc.has.slash"), (b'\\', "esc.has.backslash")] {
+            if c.name.as_bytes().contains(&b) {
+                rep.count(key);
+            }
+        }
+        if c.name.contains("]]>") {
+            rep.count("esc.has.cdata_end");
+        }
+        let m = &answers[i * per..(i + 1) * per];
+        if i == 0 {
+            rep.sample(json!({"request": reqs[i * per], "impl": c.obs[0].1[0].clone().unwrap_or_default(), "model": m[0]}));
+            rep.sample(json!({"request": reqs[i * per + 4], "impl": c.obs[4].1[0].clone().unwrap_or_default(), "model": m[4]}));
+        }
+        esc_judge(rep, c, m);
+    }
+}
+
+// ---------------------------------------------------------------------------------------------
+// stream 2: the reader side of the model against real parsers
+
+fn mutate(rng: &mut Rng, s: &str) -> String {
+    const INS: &[&str] = &[
+        "&", ";", "&#", "&#x", "&#x41;", "&#65;", "&#0;", "&#x110000;", "&#xD800;", "&#xd7ff;",
+        "&foo;", "&lt", "&amp;amp;", "&#+65;", "&#x+41;", "&#-1;", "&#99999999999;", "&#X41;",
+        "&;", "&#;", "&#x;", "\\", "\\u", "\\u00", "\\u0041", "\\u00e9", "\\u20AC", "\\x41",
+        "\\/", "\\b", "\\'", "\"", "\u{1}", "\t", "\\u12g4", "&#x1F600;", "&#128512;", "&apos;",
+        "&quot;", "&gt;", "&AMP;", "& ", "&#x 41;", "&#x41", "&&", ";;",
+    ];
+    let cs: Vec<char> = s.chars().collect();
+    let mut out = String::new();
+    let k = rng.range(1, 3);
+    let mut cuts: Vec<usize> = (0..k).map(|_| rng.below(cs.len() as u64 + 1) as usize).collect();
+    cuts.sort();
+    let mut prev = 0;
+    for c in cuts {
+        out.extend(&cs[prev..c]);
+        out.push_str(pick_str(rng, INS));
+        prev = c;
+    }
+    out.extend(&cs[prev..]);
+    if rng.chance(1, 5) && !out.is_empty() {
+        // truncate
+        let n = rng.below(out.chars().count() as u64) as usize;
+        out = out.chars().take(n).collect();
+    }
+    out
+}
+
+fn has_surrogate_escape(s: &str) -> bool {
+    let b = s.as_bytes();
+    (0..b.len().saturating_sub(3)).any(|i| {
+        b[i] == b'\\' && b[i + 1] == b'u' && (b[i + 2] == b'd' || b[i + 2] == b'D')
+            && matches!(b[i + 3], b'8' | b'9' | b'a'..=b'f' | b'A'..=b'F')
+    })
+}
+
+fn dec_impl(kind: &str, input: &str) -> String {
+    let r = guarded(AssertUnwindSafe(|| match kind {
+        "unxml" => quick_xml::escape::unescape(input).ok().map(|c| c.into_owned()),
+        _ => serde_json::from_str::<String>(&format!("\"{}\"", input)).ok(),
+    }));
+    match r {
+        Ok(Some(s)) => format!("ok {}", xhex(s.as_bytes())),
+        Ok(None) => "err".into(),
+        Err(p) => format!("panic {}", p),
+    }
+}
+
+fn dec_stream(rep: &mut Report, rng: &mut Rng) {
+    let n = rep.budget(3000, 8);
+    let mut reqs = vec![];
+    let mut impls = vec![];
+    let mut i = 0;
+    while i < n {
+        let base = truncate_chars(&if rng.chance(1, 10) { gen_name_with_controls(rng) } else { gen_name(rng) }, 1500);
+        let (kind, enc) = if rng.chance(1, 2) {
+            let e = match rng.below(3) {
+                0 => quick_xml::escape::escape(base.as_str()).into_owned(),
+                1 => quick_xml::escape::partial_escape(base.as_str()).into_owned(),
+                _ => ref_html_escape(&base),
+            };
+            ("unxml", e)
+        } else {
+            let lit = serde_json::to_string(&base).unwrap();
+            ("unjson", lit[1..lit.len() - 1].to_string())
+        };
+        let broken = rng.chance(1, 2);
+        let input = if broken { mutate(rng, &enc) } else { enc };
+        if kind == "unjson" && has_surrogate_escape(&input) {
+            rep.count("dec.skipped_surrogate_escape");
+            continue;
+        }
+        i += 1;
+        let req = format!("{} x{}", kind, hex(input.as_bytes()));
+        let out = dec_impl(kind, &input);
+        rep.case(&req, broken);
+        rep.count(&format!("dec.{}.{}", kind, if out.starts_with("ok") { "ok" } else { "err" }));
+        if i == 1 {
+            rep.sample(json!({"request": req, "impl": out}));
+        }
+        reqs.push(req);
+        impls.push(out);
+    }
+    let answers = run_model_named("gm_c18", &reqs, &rep.workdir, "dec");
+    for k in 0..reqs.len() {
+        if answers[k] != impls[k] {
+            rep.disagreements_checked += 1;
+            rep.fail(
+                "disagreement",
+                None,
+                "reader model (unescapeEnt / jsonUnescape) differs from the real parser: the scan theorems are about a reader that is not the real one".into(),
+                json!({"op": "dec", "request": reqs[k], "impl": impls[k], "model": answers[k]}),
+            );
+        }
+    }
+}
+
+// ---------------------------------------------------------------------------------------------
+// stream 3: whole reports
+
+#[derive(Clone, Debug)]
+struct FileCase {
+    comps: Vec<String>,
+    lines: Vec<String>,
+    cov: CovResult,
+}
+
+#[derive(Clone, Debug)]
+struct RepCase {
+    root: String,
+    files: Vec<FileCase>,
+    demangle: bool,
+    pretty: bool,
+    branch: bool,
+    prefix: Option<String>,
+    /// hostile strings for the coveralls service fields
+    service: Vec<String>,
+}
+
+/// mangled names with the demangling an independent tool gives (`c++filt -p`)
+const MANGLED: &[(&str, &str)] = &[
+    ("_ZN3FooIiE3barEv", "Foo<int>::bar"),
+    ("_ZlsRSoRK1A", "operator<<"),
+    ("_ZN1AanERKS_", "A::operator&"),
+    ("_ZNK3FooIcEltERKS0_", "Foo<char>::operator<"),
+];
+
+fn expected_fn_name(c: &RepCase, raw: &str) -> String {
+    if c.demangle {
+        if let Some((_, d)) = MANGLED.iter().find(|(m, _)| *m == raw) {
+            return d.to_string();
+        }
+    }
+    raw.to_string()
+}
+
+fn rel_of(f: &FileCase) -> String {
+    f.comps.join("/")
+}
+fn parent_of(f: &FileCase) -> String {
+    f.comps[..f.comps.len() - 1].join("/")
+}
+
+fn case_json(c: &RepCase) -> Value {
+    json!({
+        "op": "report",
+        "root": c.root,
+        "demangle": c.demangle, "pretty": c.pretty, "branch": c.branch, "prefix": c.prefix,
+        "service": c.service,
+        "files": c.files.iter().map(|f| json!({
+            "path": f.comps, "lines": f.lines, "cov": show_cov(&f.cov)})).collect::<Vec<_>>(),
+    })
+}
+
+fn case_from_json(v: &Value) -> Option<RepCase> {
+    let strs = |x: &Value| -> Option<Vec<String>> {
+        x.as_array()?.iter().map(|s| s.as_str().map(|s| s.to_string())).collect()
+    };
+    Some(RepCase {
+        root: v["root"].as_str()?.to_string(),
+        demangle: v["demangle"].as_bool()?,
+        pretty: v["pretty"].as_bool()?,
+        branch: v["branch"].as_bool()?,
+        prefix: v["prefix"].as_str().map(|s| s.to_string()),
+        service: strs(&v["service"])?,
+        files: v["files"]
+            .as_array()?
+            .iter()
+            .map(|f| {
+                Some(FileCase {
+                    comps: strs(&f["path"])?,
+                    lines: strs(&f["lines"])?,
+                    cov: parse_cov(f["cov"].as_str()?),
+                })
+            })
+            .collect::<Option<Vec<_>>>()?,
+    })
+}
+
+fn gen_cov(rng: &mut Rng, demangle: bool, nlines: usize) -> CovResult {
+    let mut c = CovResult::default();
+    let top = nlines as u64 + rng.range(0, 2);
+    for l in 1..=top.max(1) {
+        if rng.chance(3, 4) {
+            c.lines.insert(l as u32, *rng.pick(&[0u64, 0, 1, 2, 7, 1000]));
+        }
+    }
+    let keys: Vec<u32> = c.lines.keys().cloned().collect();
+    for l in &keys {
+        if rng.chance(1, 4) {
+            let k = rng.range(1, 3);
+            c.branches.insert(*l, (0..k).map(|_| rng.chance(1, 2)).collect());
+        }
+    }
+    let nf = rng.range(0, 3);
+    for _ in 0..nf {
+        let name = if demangle {
+            if rng.chance(1, 2) {
+                rng.pick(MANGLED).0.to_string()
+            } else {
+                // a leading letter keeps the demangler's language detection away
+                format!("h{}", truncate_chars(&gen_name(rng), 300))
+            }
+        } else if rng.chance(1, 5) {
+            rng.pick(MANGLED).0.to_string()
+        } else {
+            truncate_chars(&gen_name(rng), 300)
+        };
+        c.functions.insert(
+            name,
+            Function {
+                start: rng.range(1, top.max(1)) as u32,
+                executed: rng.chance(1, 2),
+            },
+        );
+    }
+    c
+}
+
+fn gen_report_case(rng: &mut Rng, prefix: Option<String>) -> RepCase {
+    let demangle = rng.chance(1, 3);
+    let ndirs = rng.range(1, 3);
+    let mut dirs: Vec<Vec<String>> = vec![];
+    for _ in 0..ndirs {
+        let depth = rng.range(1, 2);
+        dirs.push((0..depth).map(|_| gen_component(rng)).collect());
+    }
+    let nfiles = rng.range(1, 4);
+    let mut files: Vec<FileCase> = vec![];
+    let mut used: BTreeSet<String> = BTreeSet::new();
+    let dir_names: BTreeSet<String> = dirs.iter().flatten().cloned().collect();
+    for _ in 0..nfiles {
+        let d = rng.pick(&dirs).clone();
+        let mut name = gen_component(rng);
+        if rng.chance(1, 2) {
+            name.push_str(pick_str(rng, &[".c", ".cpp", ".rs", ".h"]));
+        }
+        // a file must not be called like a directory of this case (same node in every tree)
+        while dir_names.contains(&name) {
+            name.push('f');
+        }
+        let mut comps = d;
+        comps.push(name);
+        let rel = comps.join("/");
+        // distinct also after the `.html` page-name mapping
+        let page = page_name(Path::new(&rel)).to_string_lossy().to_string();
+        if !used.insert(rel) || !used.insert(format!("page:{}", page)) {
+            continue;
+        }
+        let nl = rng.range(0, 5) as usize;
+        let lines: Vec<String> = (0..nl)
+            .map(|_| {
+                if rng.chance(1, 8) {
+                    String::new()
+                } else {
+                    truncate_chars(&gen_name(rng), 400)
+                }
+            })
+            .collect();
+        let cov = gen_cov(rng, demangle, nl);
+        files.push(FileCase { comps, lines, cov });
+    }
+    RepCase {
+        root: gen_component(rng),
+        files,
+        demangle,
+        pretty: rng.chance(1, 2),
+        branch: rng.chance(1, 2),
+        prefix,
+        service: (0..4).map(|_| truncate_chars(&gen_name(rng), 200)).collect(),
+    }
+}
+
+/// the benign twin: same tree, same numbers, every name replaced by a harmless token
+fn benign_twin(c: &RepCase) -> RepCase {
+    let mut comp_map: BTreeMap<String, String> = BTreeMap::new();
+    let mut tok = |s: &String| -> String {
+        let n = comp_map.len();
+        comp_map.entry(s.clone()).or_insert_with(|| format!("n{}", n)).clone()
+    };
+    let mut b = c.clone();
+    b.root = "root".into();
+    for f in b.files.iter_mut() {
+        f.comps = f.comps.iter().map(&mut tok).collect();
+        f.lines = (0..f.lines.len()).map(|i| format!("line{}", i)).collect();
+        let mut fs: Vec<(String, Function)> = f.cov.functions.iter().map(|(k, v)| (k.clone(), v.clone())).collect();
+        fs.sort_by(|a, b| a.0.cmp(&b.0));
+        f.cov.functions = fs
+            .into_iter()
+            .enumerate()
+            .map(|(i, (_, v))| (format!("f{}", i), v))
+            .collect();
+    }
+    b.prefix = c.prefix.as_ref().map(|_| "http://h".to_string());
+    b.service = (0..c.service.len()).map(|i| format!("s{}", i)).collect();
+    b.demangle = false;
+    b
+}
+
+/// `add_html_ext` of html.rs, to find the page of a file
+fn page_name(rel: &Path) -> PathBuf {
+    match rel.extension() {
+        Some(e) => rel.with_extension(format!("{}.html", e.to_str().unwrap())),
+        None => rel.with_extension(".html"),
+    }
+}
+
+struct Written {
+    /// document id -> (kind, path)
+    docs: Vec<(String, &'static str, PathBuf)>,
+    /// writer -> panic message
+    panics: Vec<(String, String)>,
+    src_root: PathBuf,
+}
+
+fn results_of(c: &RepCase, src_root: &Path) -> Vec<ResultTuple> {
+    c.files
+        .iter()
+        .map(|f| {
+            let rel = PathBuf::from(rel_of(f));
+            (src_root.join(&rel), rel, f.cov.clone())
+        })
+        .collect()
+}
+
+/// write the sources, run the five real writers; `tag` distinguishes hostile / benign / replays
+fn run_writers(c: &RepCase, base: &Path, id: &str) -> Written {
+    let _ = std::fs::remove_dir_all(base);
+    let src_root = base.join("src").join(&c.root);
+    for f in &c.files {
+        let p = src_root.join(rel_of(f));
+        std::fs::create_dir_all(p.parent().unwrap()).unwrap();
+        let mut text = f.lines.join("\n");
+        if !f.lines.is_empty() {
+            text.push('\n');
+        }
+        std::fs::write(&p, text).unwrap();
+    }
+    let out = base.join("out");
+    std::fs::create_dir_all(&out).unwrap();
+    let results = results_of(c, &src_root);
+    let mut w = Written {
+        docs: vec![],
+        panics: vec![],
+        src_root: src_root.clone(),
+    };
+    let mut run = |name: &str, f: &dyn Fn()| {
+        if let Err(p) = guarded(AssertUnwindSafe(f)) {
+            w.panics.push((name.to_string(), p));
+        }
+    };
+    let cob = out.join("cobertura.xml");
+    run("cobertura", &|| {
+        grcov::output_cobertura(Some(&src_root), &results, Some(&cob), c.demangle, c.pretty)
+    });
+    let cvl = out.join("coveralls.json");
+    run("coveralls", &|| {
+        grcov::output_coveralls(
+            &results,
+            Some(&c.service[0]),
+            Some(&c.service[1]),
+            "7",
+            Some(&c.service[2]),
+            "9",
+            Some(&c.service[3]),
+            "0123abcd",
+            true,
+            Some(&cvl),
+            "main",
+            false,
+            c.demangle,
+        )
+    });
+    let cvd = out.join("covdir.json");
+    run("covdir", &|| grcov::output_covdir(&results, Some(&cvd), 2));
+    let ade = out.join("ade.ndjson");
+    run("ade", &|| grcov::output_activedata_etl(&results, Some(&ade), c.demangle));
+    // html: first the consumer in-process under the panic guard (output_html would take the whole
+    // process down with process::exit(1) if a worker panicked), then the real entry point
+    let pre = base.join("preflight");
+    let mut html_ok = true;
+    run("html.consumer", &|| {
+        let (tera, conf) = grcov::html::get_config(None, c.branch, 2, true, HtmlResources::Cdn);
+        let (tx, rx) = crossbeam_channel::unbounded();
+        for (abs, rel, r) in &results {
+            tx.send(Some(grcov::HtmlItem {
+                abs_path: abs.clone(),
+                rel_path: rel.clone(),
+                result: r.clone(),
+            }))
+            .unwrap();
+        }
+        tx.send(None).unwrap();
+        let stats = std::sync::Arc::new(std::sync::Mutex::new(grcov::HtmlGlobalStats {
+            abs_prefix: c.prefix.clone().map(PathBuf::from),
+            ..Default::default()
+        }));
+        grcov::html::consumer_html(&tera, rx, stats.clone(), &pre, conf.clone(), &c.prefix);
+        let g = std::sync::Arc::try_unwrap(stats).unwrap().into_inner().unwrap();
+        grcov::html::gen_index(&tera, &g, &conf, &pre);
+    });
+    if w.panics.iter().any(|(n, _)| n == "html.consumer") {
+        html_ok = false;
+    }
+    let mut run = |name: &str, f: &dyn Fn()| {
+        if let Err(p) = guarded(AssertUnwindSafe(f)) {
+            w.panics.push((name.to_string(), p));
+        }
+    };
+    let html = out.join("html");
+    if html_ok {
+        run("html", &|| {
+            grcov::output_html(
+                &results,
+                Some(&html),
+                2,
+                c.branch,
+                None,
+                2,
+                &c.prefix,
+                true,
+                HtmlResources::Cdn,
+            )
+        });
+    }
+    w.docs.push((format!("{}.cobertura", id), "xml", cob));
+    w.docs.push((format!("{}.coveralls", id), "json", cvl));
+    w.docs.push((format!("{}.covdir", id), "json", cvd));
+    w.docs.push((format!("{}.ade", id), "ndjson", ade));
+    if html_ok {
+        w.docs.push((format!("{}.html.covjson", id), "json", html.join("coverage.json")));
+        w.docs.push((format!("{}.html.top", id), "html", html.join("index.html")));
+        let parents: BTreeSet<String> = c.files.iter().map(parent_of).collect();
+        for (k, p) in parents.iter().enumerate() {
+            w.docs.push((format!("{}.html.dir{}", id, k), "html", html.join(p).join("index.html")));
+        }
+        for (k, f) in c.files.iter().enumerate() {
+            let page = html.join(page_name(Path::new(&rel_of(f))));
+            w.docs.push((format!("{}.html.file{}", id, k), "html", page.clone()));
+            if c.prefix.is_some() {
+                // the same page with the `| safe` breadcrumb link escaped: used to decide whether
+                // an oracle failure is exactly the known finding
+                if let Ok(raw) = std::fs::read_to_string(&page) {
+                    let link = file_links(c, f).1;
+                    let bad = format!("<li><a href=\"{}\">", link);
+                    let good = format!("<li><a href=\"{}\">", ref_html_escape(&link));
+                    let repaired = raw.replacen(&bad, &good, 1);
+                    let rp = out.join(format!("repaired{}.html", k));
+                    std::fs::write(&rp, repaired).unwrap();
+                    w.docs.push((format!("{}.html.file{}.repaired", id, k), "html", rp));
+                }
+            }
+        }
+    }
+    w
+}
+
+/// (top-level link, parent link) of a file page, computed with std paths only
+fn file_links(c: &RepCase, f: &FileCase) -> (String, String) {
+    match &c.prefix {
+        None => (
+            format!("{}index.html", "../".repeat(f.comps.len() - 1)),
+            "./index.html".to_string(),
+        ),
+        Some(p) => (
+            PathBuf::from(p).join("index.html").display().to_string(),
+            PathBuf::from(p)
+                .join(parent_of(f))
+                .join("index.html")
+                .display()
+                .to_string(),
+        ),
+    }
+}
+
+fn run_decoder(docs: &[(String, &'static str, PathBuf)], workdir: &Path, tag: &str) -> Value {
+    let manifest: Vec<Value> = docs
+        .iter()
+        .map(|(id, kind, path)| json!({"id": id, "kind": kind, "path": path.to_str().unwrap()}))
+        .collect();
+    let mp = workdir.join(format!("{}.manifest.json", tag));
+    let op = workdir.join(format!("{}.decoded.json", tag));
+    std::fs::write(&mp, serde_json::to_string(&manifest).unwrap()).unwrap();
+    let st = std::process::Command::new("/usr/bin/python3")
+        .arg("/verif/tools/c18_decode.py")
+        .arg(&mp)
+        .arg(&op)
+        .status()
+        .expect("cannot run /usr/bin/python3 tools/c18_decode.py");
+    if !st.success() {
+        eprintln!("c18_decode.py failed");
+        std::process::exit(2);
+    }
+    serde_json::from_str(&std::fs::read_to_string(&op).unwrap()).expect("decoder output is not JSON")
+}
+
+fn sorted<T: Ord>(mut v: Vec<T>) -> Vec<T> {
+    v.sort();
+    v
+}
+
+fn pairs(v: &Value) -> Vec<(String, String)> {
+    v.as_array()
+        .map(|a| {
+            a.iter()
+                .map(|p| (p[0].as_str().unwrap_or("").to_string(), p[1].as_str().unwrap_or("").to_string()))
+                .collect()
+        })
+        .unwrap_or_default()
+}
+fn triples(v: &Value) -> Vec<(String, String, String)> {
+    v.as_array()
+        .map(|a| {
+            a.iter()
+                .map(|p| {
+                    (
+                        p[0].as_str().unwrap_or("").to_string(),
+                        p[1].as_str().unwrap_or("").to_string(),
+                        p[2].as_str().unwrap_or("").to_string(),
+                    )
+                })
+                .collect()
+        })
+        .unwrap_or_default()
+}
+
+struct Verdict {
+    /// unnamed oracle failures
+    failures: Vec<String>,
+    /// failures that are exactly the known finding
+    finding_abs_prefix: Vec<String>,
+}
+
+/// expected `<title>` / `<a>` / `<pre>` elements of one page, in document order
+fn expect_file_page(c: &RepCase, f: &FileCase) -> Vec<(String, String, String)> {
+    let name = f.comps.last().unwrap().clone();
+    let (top, par) = file_links(c, f);
+    let mut v = vec![
+        ("title".to_string(), String::new(), format!("Grcov report - {} ", name)),
+        ("a".to_string(), top, "top_level".to_string()),
+        ("a".to_string(), par, parent_of(f)),
+        ("a".to_string(), "#".to_string(), name),
+    ];
+    for (i, l) in f.lines.iter().enumerate() {
+        v.push(("a".to_string(), format!("#{}", i + 1), format!("{}", i + 1)));
+        v.push(("pre".to_string(), String::new(), l.clone()));
+    }
+    v
+}
+
+fn expect_dir_page(c: &RepCase, parent: &str) -> Vec<(String, String, String)> {
+    let ncomp = parent.split('/').count();
+    let up = match &c.prefix {
+        None => format!("{}index.html", "../".repeat(ncomp)),
+        Some(p) => PathBuf::from(p).join("index.html").display().to_string(),
+    };
+    let mut v = vec![
+        ("title".to_string(), String::new(), format!("Grcov report - {} ", parent)),
+        ("a".to_string(), up, "top_level".to_string()),
+        ("a".to_string(), "#".to_string(), parent.to_string()),
+    ];
+    let names: BTreeSet<String> = c
+        .files
+        .iter()
+        .filter(|f| parent_of(f) == parent)
+        .map(|f| f.comps.last().unwrap().clone())
+        .collect();
+    for n in names {
+        let url = match &c.prefix {
+            None => format!("{}.html", n),
+            Some(p) => format!("{}/{}.html", PathBuf::from(p).join(parent).display(), n),
+        };
+        v.push(("a".to_string(), url, n));
+    }
+    v
+}
+
+fn expect_top_page(c: &RepCase) -> Vec<(String, String, String)> {
+    let mut v = vec![
+        ("title".to_string(), String::new(), "Grcov report - top_level ".to_string()),
+        ("a".to_string(), "#".to_string(), "top_level".to_string()),
+    ];
+    let parents: BTreeSet<String> = c.files.iter().map(parent_of).collect();
+    for p in parents {
+        let url = match &c.prefix {
+            None => format!("{}/index.html", p),
+            Some(pre) => format!("{}{}/index.html", pre, p),
+        };
+        v.push(("a".to_string(), url, p));
+    }
+    v
+}
+
+/// one html page against its benign twin and the expected elements; returns what is wrong
+fn judge_page(h: &Value, b: &Value, expected: &[(String, String, String)]) -> Vec<String> {
+    let mut bad = vec![];
+    if !h["ok"].as_bool().unwrap_or(false) {
+        return vec![format!("page not readable: {}", h["error"])];
+    }
+    if !b["ok"].as_bool().unwrap_or(false) {
+        return vec![format!("benign twin page not readable: {}", b["error"])];
+    }
+    if h["tags"] != b["tags"] {
+        let ht = h["tags"].as_array().cloned().unwrap_or_default();
+        let bt = b["tags"].as_array().cloned().unwrap_or_default();
+        let k = ht.iter().zip(bt.iter()).take_while(|(x, y)| x == y).count();
+        bad.push(format!(
+            "tag stream differs from the benign twin at tag {}: {} instead of {} ({} tags instead of {})",
+            k,
+            ht.get(k).unwrap_or(&Value::Null),
+            bt.get(k).unwrap_or(&Value::Null),
+            ht.len(),
+            bt.len()
+        ));
+    }
+    if h["dup_attr"].as_bool().unwrap_or(false) || !h["unclosed"].as_array().map(|a| a.is_empty()).unwrap_or(false) {
+        bad.push("duplicate attribute or unclosed text element".into());
+    }
+    let elems = triples(&h["elems"]);
+    if elems != expected {
+        let k = elems.iter().zip(expected.iter()).take_while(|(x, y)| x == y).count();
+        bad.push(format!(
+            "element {} of the page decodes to {:?}, expected {:?}",
+            k,
+            elems.get(k),
+            expected.get(k)
+        ));
+    }
+    // attribute values that are not link targets of <a> (ids, aria labels, the stylesheet) do not
+    // depend on names
+    let hv: Vec<_> = triples(&h["values"]).into_iter().filter(|t| !(t.0 == "a" && t.1 == "href")).collect();
+    let bv: Vec<_> = triples(&b["values"]).into_iter().filter(|t| !(t.0 == "a" && t.1 == "href")).collect();
+    if hv != bv {
+        bad.push("an attribute value that should not depend on names differs from the benign twin".into());
+    }
+    bad
+}
+
+fn judge_case(c: &RepCase, hid: &str, bid: &str, wh: &Written, wb: &Written, dec: &Value) -> Verdict {
+    let mut v = Verdict {
+        failures: vec![],
+        finding_abs_prefix: vec![],
+    };
+    for (n, p) in &wh.panics {
+        v.failures.push(format!("writer {} panicked: {}", n, p));
+    }
+    for (n, p) in &wb.panics {
+        v.failures.push(format!("writer {} panicked on the benign twin: {}", n, p));
+    }
+    if !v.failures.is_empty() {
+        return v;
+    }
+    let doc = |id: &str, what: &str| -> &Value { &dec[format!("{}.{}", id, what)] };
+    let readable = |v: &mut Verdict, what: &str| -> bool {
+        let h = doc(hid, what);
+        let b = doc(bid, what);
+        if !b["ok"].as_bool().unwrap_or(false) {
+            v.failures.push(format!("{}: benign twin not readable: {}", what, b["error"]));
+            return false;
+        }
+        if !h["ok"].as_bool().unwrap_or(false) {
+            v.failures.push(format!("{}: not well-formed: {}", what, h["error"]));
+            return false;
+        }
+        if h["shape"] != b["shape"] {
+            v.failures.push(format!("{}: element/key structure differs from the benign twin (something was added or lost)", what));
+            return false;
+        }
+        true
+    };
+    let rels: Vec<String> = c.files.iter().map(rel_of).collect();
+    let fn_names: Vec<String> = c
+        .files
+        .iter()
+        .flat_map(|f| f.cov.functions.keys().map(|k| expected_fn_name(c, k)).collect::<Vec<_>>())
+        .collect();
+
+    // cobertura
+    if readable(&mut v, "cobertura") {
+        let h = doc(hid, "cobertura");
+        let b = doc(bid, "cobertura");
+        let attrs = triples(&h["attrs"]);
+        let get = |path: &str, key: &str| -> Vec<String> {
+            attrs.iter().filter(|t| t.0 == path && t.1 == key).map(|t| t.2.clone()).collect()
+        };
+        let pk = "coverage/packages/package";
+        let cl = "coverage/packages/package/classes/class";
+        let me = "coverage/packages/package/classes/class/methods/method";
+        if get(pk, "name") != rels {
+            v.failures.push("cobertura: package names do not decode to the file paths".into());
+        }
+        if get(cl, "filename") != rels {
+            v.failures.push("cobertura: class filenames do not decode to the file paths".into());
+        }
+        let stems: Vec<String> = rels
+            .iter()
+            .map(|r| Path::new(r).file_stem().map(|s| s.to_str().unwrap().to_string()).unwrap_or_default())
+            .collect();
+        if get(cl, "name") != stems {
+            v.failures.push("cobertura: class names do not decode to the file stems".into());
+        }
+        if sorted(get(me, "name")) != sorted(fn_names.clone()) {
+            v.failures.push("cobertura: method names do not decode to the function names".into());
+        }
+        let texts = pairs(&h["texts"]);
+        let want = vec![("coverage/sources/source".to_string(), wh.src_root.display().to_string())];
+        if texts != want {
+            v.failures.push(format!("cobertura: character data {:?}, expected only the source directory", texts));
+        }
+        let other = |x: &Value| -> Vec<(String, String, String)> {
+            sorted(
+                triples(&x["attrs"])
+                    .into_iter()
+                    .filter(|t| !matches!(t.1.as_str(), "name" | "filename" | "timestamp"))
+                    .collect(),
+            )
+        };
+        if other(h) != other(b) {
+            v.failures.push("cobertura: a numeric attribute differs from the benign twin".into());
+        }
+    }
+    // coveralls
+    if readable(&mut v, "coveralls") {
+        let h = doc(hid, "coveralls");
+        let strings: Vec<(String, String)> = pairs(&h["strings"])
+            .into_iter()
+            .filter(|p| p.0 != "$.source_files[].source_digest")
+            .collect();
+        let mut want: Vec<(String, String)> = vec![
+            ("$.git.head.id".into(), "0123abcd".into()),
+            ("$.git.branch".into(), "main".into()),
+            ("$.service_number".into(), "7".into()),
+            ("$.service_pull_request".into(), "9".into()),
+            ("$.repo_token".into(), c.service[0].clone()),
+            ("$.service_name".into(), c.service[1].clone()),
+            ("$.service_job_id".into(), c.service[2].clone()),
+            ("$.flag_name".into(), c.service[3].clone()),
+        ];
+        for r in &rels {
+            want.push(("$.source_files[].name".into(), r.clone()));
+        }
+        for f in &fn_names {
+            want.push(("$.source_files[].functions[].name".into(), f.clone()));
+        }
+        if sorted(strings.clone()) != sorted(want) {
+            v.failures.push("coveralls: the strings of the document are not exactly the names that went in".into());
+        }
+        let order: Vec<String> = strings.iter().filter(|p| p.0 == "$.source_files[].name").map(|p| p.1.clone()).collect();
+        if order != rels {
+            v.failures.push("coveralls: source file names out of order or altered".into());
+        }
+    }
+    // covdir
+    if readable(&mut v, "covdir") {
+        let h = doc(hid, "covdir");
+        let mut want_names: BTreeSet<(String, String)> = BTreeSet::new();
+        let mut want_keys: BTreeSet<(String, String)> = BTreeSet::new();
+        want_names.insert(("$.name".into(), String::new()));
+        for f in &c.files {
+            let mut path = "$".to_string();
+            let mut seen_prefix = String::new();
+            for comp in &f.comps {
+                // the node is identified by its full prefix; equal components under different
+                // parents are different nodes
+                seen_prefix.push('/');
+                seen_prefix.push_str(comp);
+                want_keys.insert((format!("{}.children\u{0}{}", path, seen_prefix), comp.clone()));
+                path.push_str(".children.*");
+                want_names.insert((format!("{}.name\u{0}{}", path, seen_prefix), comp.clone()));
+            }
+        }
+        let strip = |s: BTreeSet<(String, String)>| -> Vec<(String, String)> {
+            sorted(s.into_iter().map(|(p, n)| (p.split('\u{0}').next().unwrap().to_string(), n)).collect())
+        };
+        if sorted(pairs(&h["strings"])) != strip(want_names) {
+            v.failures.push("covdir: node names are not exactly the path components".into());
+        }
+        if sorted(pairs(&h["keys"])) != strip(want_keys) {
+            v.failures.push("covdir: children keys are not exactly the path components".into());
+        }
+    }
+    // ActiveData-ETL
+    if readable(&mut v, "ade") {
+        let h = doc(hid, "ade");
+        let records: usize = c.files.iter().map(|f| f.cov.functions.len() + 1).sum();
+        if h["records"].as_u64() != Some(records as u64) {
+            v.failures.push(format!("ade: {} records, expected {}", h["records"], records));
+        }
+        let mut want: Vec<(String, String)> = vec![];
+        for f in &c.files {
+            for k in f.cov.functions.keys() {
+                want.push(("$.language".into(), "c/c++".into()));
+                want.push(("$.file.name".into(), rel_of(f)));
+                want.push(("$.method.name".into(), expected_fn_name(c, k)));
+            }
+            want.push(("$.language".into(), "c/c++".into()));
+            want.push(("$.file.name".into(), rel_of(f)));
+        }
+        if sorted(pairs(&h["strings"])) != sorted(want) {
+            v.failures.push("ade: the strings of the records are not exactly the names that went in".into());
+        }
+    }
+    // html
+    if readable(&mut v, "html.covjson") {}
+    let empty = Value::Null;
+    let top = judge_page(doc(hid, "html.top"), doc(bid, "html.top"), &expect_top_page(c));
+    v.failures.extend(top.into_iter().map(|m| format!("html top index: {}", m)));
+    let parents: BTreeSet<String> = c.files.iter().map(parent_of).collect();
+    for (k, p) in parents.iter().enumerate() {
+        // the twin numbers its directories in the order of *its* names: find the twin of `p`
+        let bk = twin_dir_index(c, p);
+        let r = judge_page(
+            doc(hid, &format!("html.dir{}", k)),
+            bk.map(|bk| doc(bid, &format!("html.dir{}", bk))).unwrap_or(&empty),
+            &expect_dir_page(c, p),
+        );
+        v.failures.extend(r.into_iter().map(|m| format!("html directory index {:?}: {}", p, m)));
+    }
+    for (k, f) in c.files.iter().enumerate() {
+        let what = format!("html.file{}", k);
+        let exp = expect_file_page(c, f);
+        let r = judge_page(doc(hid, &what), doc(bid, &what), &exp);
+        if r.is_empty() {
+            continue;
+        }
+        // known finding: with --abs-link-prefix the parent link is written unescaped; it is that
+        // and nothing else iff the same page with that one link escaped passes
+        if c.prefix.is_some() {
+            let link = file_links(c, f).1;
+            if ref_html_escape(&link).replace("&#x2F;", "/") != link {
+                let rr = judge_page(doc(hid, &format!("{}.repaired", what)), doc(bid, &what), &exp);
+                if rr.is_empty() {
+                    v.finding_abs_prefix.push(format!(
+                        "file page of {:?}: breadcrumb href written raw ({}): {}",
+                        rel_of(f),
+                        link,
+                        r.join("; ")
+                    ));
+                    continue;
+                }
+            }
+        }
+        v.failures.extend(r.into_iter().map(|m| format!("html file page {:?}: {}", rel_of(f), m)));
+    }
+    v
+}
+
+/// index of the twin's directory page that corresponds to directory `p` of the hostile case
+fn twin_dir_index(c: &RepCase, p: &str) -> Option<usize> {
+    let b = benign_twin(c);
+    let i = c.files.iter().position(|f| parent_of(f) == p)?;
+    let bp = parent_of(&b.files[i]);
+    let parents: BTreeSet<String> = b.files.iter().map(parent_of).collect();
+    parents.iter().position(|x| *x == bp)
+}
+
+/// the model's prediction of the two breadcrumb items of every file page, against the page bytes
+fn bc_requests(c: &RepCase, wh: &Written) -> Vec<(String, String)> {
+    let mut v = vec![];
+    for (id, kind, path) in &wh.docs {
+        if *kind != "html" || !id.contains(".html.file") || id.ends_with(".repaired") {
+            continue;
+        }
+        let k: usize = id.rsplit("file").next().unwrap().parse().unwrap();
+        let f = &c.files[k];
+        let req = format!(
+            "bc {} x{} {}",
+            c.prefix.as_ref().map(|p| xhex(p.as_bytes())).unwrap_or("-".into()),
+            hex(parent_of(f).as_bytes()),
+            f.comps.len() - 1
+        );
+        let page = std::fs::read_to_string(path).unwrap_or_default();
+        let seg = page
+            .find("<ul>")
+            .and_then(|i| {
+                let after = &page[i + 4..];
+                after.find("<li class=\"is-active\">").map(|j| after[..j].to_string())
+            })
+            .unwrap_or_else(|| "<breadcrumb not found>".into());
+        v.push((req, xhex(seg.as_bytes())));
+    }
+    v
+}
+
+fn evaluate_cases(rep: &mut Report, cases: &[RepCase], tag: &str) -> Vec<Verdict> {
+    let base = rep.workdir.join("reports").join(tag);
+    let mut written = vec![];
+    let mut docs = vec![];
+    for (i, c) in cases.iter().enumerate() {
+        let hid = format!("{}h", i);
+        let bid = format!("{}b", i);
+        let wh = run_writers(c, &base.join(&hid), &hid);
+        let wb = run_writers(&benign_twin(c), &base.join(&bid), &bid);
+        docs.extend(wh.docs.iter().cloned());
+        docs.extend(wb.docs.iter().cloned());
+        written.push((hid, bid, wh, wb));
+    }
+    let dec = run_decoder(&docs, &rep.workdir, tag);
+    // breadcrumb tie with the model
+    let mut reqs = vec![];
+    let mut impls = vec![];
+    let mut owner = vec![];
+    for (i, c) in cases.iter().enumerate() {
+        for (r, o) in bc_requests(c, &written[i].2) {
+            reqs.push(r);
+            impls.push(o);
+            owner.push(i);
+        }
+    }
+    let answers = if reqs.is_empty() { vec![] } else { run_model_named("gm_c18", &reqs, &rep.workdir, &format!("{}.bc", tag)) };
+    let mut bc_diff: BTreeMap<usize, String> = BTreeMap::new();
+    for k in 0..reqs.len() {
+        let joined = answers[k].replace(" x", "");
+        if joined != impls[k] {
+            bc_diff.insert(owner[k], format!("request {} impl {} model {}", reqs[k], impls[k], answers[k]));
+        }
+    }
+    let mut out = vec![];
+    for (i, c) in cases.iter().enumerate() {
+        let (hid, bid, wh, wb) = &written[i];
+        let v = judge_case(c, hid, bid, wh, wb, &dec);
+        if v.failures.is_empty() && v.finding_abs_prefix.is_empty() {
+            if let Some(d) = bc_diff.get(&i) {
+                rep.disagreements_checked += 1;
+                rep.fail(
+                    "disagreement",
+                    None,
+                    format!("breadcrumb of a file page differs from Escape.breadcrumbItem: {}", d),
+                    case_json(c),
+                );
+            }
+        }
+        out.push(v);
+    }
+    out
+}
+
+/// drop files, functions, source lines, then characters, while the same kind of failure remains
+fn shrink_report(rep: &mut Report, c: &RepCase, want_finding: bool) -> RepCase {
+    let still = |rep: &mut Report, cand: &RepCase| -> bool {
+        if cand.files.is_empty() {
+            return false;
+        }
+        let v = &evaluate_cases(rep, std::slice::from_ref(cand), "shrink")[0];
+        if want_finding {
+            !v.finding_abs_prefix.is_empty()
+        } else {
+            !v.failures.is_empty()
+        }
+    };
+    let mut cur = c.clone();
+    let mut budget = 40;
+    let try_cand = |rep: &mut Report, cur: &mut RepCase, cand: RepCase, budget: &mut i32| -> bool {
+        if *budget <= 0 {
+            return false;
+        }
+        *budget -= 1;
+        if still(rep, &cand) {
+            *cur = cand;
+            true
+        } else {
+            false
+        }
+    };
+    let mut i = 0;
+    while i < cur.files.len() && cur.files.len() > 1 {
+        let mut cand = cur.clone();
+        cand.files.remove(i);
+        if !try_cand(rep, &mut cur, cand, &mut budget) {
+            i += 1;
+        }
+    }
+    for fi in 0..cur.files.len() {
+        let mut cand = cur.clone();
+        cand.files[fi].cov.functions.clear();
+        try_cand(rep, &mut cur, cand, &mut budget);
+        let mut cand = cur.clone();
+        cand.files[fi].lines.clear();
+        try_cand(rep, &mut cur, cand, &mut budget);
+        let mut cand = cur.clone();
+        cand.files[fi].cov.branches.clear();
+        try_cand(rep, &mut cur, cand, &mut budget);
+    }
+    let mut cand = cur.clone();
+    cand.root = "r".into();
+    cand.service = vec!["a".into(), "b".into(), "c".into(), "d".into()];
+    try_cand(rep, &mut cur, cand, &mut budget);
+    cur
+}
+
+fn report_stream(rep: &mut Report, rng: &mut Rng) {
+    let n = rep.budget(80, 6);
+    let n_prefix = rep.budget(10, 6);
+    let mut cases = vec![];
+    // fixed: the DESIGN §7 item 20 directory, without and with the prefix option
+    let witness = |prefix: Option<String>| RepCase {
+        root: "src<&>".into(),
+        files: vec![FileCase {
+            comps: vec!["x\"><b id=pwn>".into(), "a&b<i>'.c".into()],
+            lines: vec!["int main() { return a<b && c>\"d\"; } // </pre><script>alert(1)</script>".into()],
+            cov: {
+                let mut c = CovResult::default();
+                c.lines.insert(1, 1);
+                c.functions.insert("operator<<\"&'>".into(), Function { start: 1, executed: true });
+                c
+            },
+        }],
+        demangle: false,
+        pretty: false,
+        branch: true,
+        prefix,
+        service: vec!["t\"ok".into(), "s<n>".into(), "j&j".into(), "f'\\".into()],
+    };
+    cases.push(witness(None));
+    cases.push(witness(Some("http://h".into())));
+    for _ in 0..n {
+        cases.push(gen_report_case(rng, None));
+    }
+    for _ in 0..n_prefix {
+        let p = rng.pick(&["http://h", "https://example.org/cov/", "/srv/www"]).to_string();
+        cases.push(gen_report_case(rng, Some(p)));
+    }
+    let verdicts = evaluate_cases(rep, &cases, "run");
+    let mut shrunk = 0;
+    for (i, (c, v)) in cases.iter().zip(verdicts.iter()).enumerate() {
+        let cj = case_json(c);
+        let hostile = c.files.iter().any(|f| {
+            f.comps.iter().any(|s| is_meta_str(s))
+                || f.lines.iter().any(|s| is_meta_str(s))
+                || f.cov.functions.keys().any(|s| is_meta_str(s))
+        });
+        rep.case(&cj.to_string(), hostile);
+        rep.count(if c.prefix.is_some() { "report.with_abs_link_prefix" } else { "report.no_prefix" });
+        rep.count_n("report.files", c.files.len() as u64);
+        rep.count_n("report.functions", c.files.iter().map(|f| f.cov.functions.len() as u64).sum());
+        rep.count_n("report.source_lines", c.files.iter().map(|f| f.lines.len() as u64).sum());
+        if c.demangle {
+            rep.count("report.demangle");
+        }
+        if c.pretty {
+            rep.count("report.cobertura_pretty");
+        }
+        if i == 0 {
+            rep.sample(json!({"case": cj, "verdict": if v.failures.is_empty() { "holds" } else { "fails" }}));
+        }
+        if !v.failures.is_empty() {
+            let (cs, what) = if shrunk < 2 {
+                shrunk += 1;
+                let s = shrink_report(rep, c, false);
+                let w = evaluate_cases(rep, std::slice::from_ref(&s), "shrunk")[0].failures.join(" | ");
+                (s, w)
+            } else {
+                (c.clone(), v.failures.join(" | "))
+            };
+            rep.fail("oracle", None, what, case_json(&cs));
+        }
+        if !v.finding_abs_prefix.is_empty() {
+            rep.count("report.finding_abs_prefix_href");
+            rep.fail("oracle", Some(FINDING_ABS_PREFIX), v.finding_abs_prefix.join(" | "), cj.clone());
+        }
+    }
+}
+
+// ---------------------------------------------------------------------------------------------
+
+pub fn run(rep: &mut Report) {
+    // output_coveralls asks git about the commit: keep it away from /verif's own repository
+    std::env::set_var("GIT_DIR", "/nonexistent-c18");
+    std::env::remove_var("BULMA_VERSION");
+    let mut rng = Rng::new(rep.seed ^ TAG);
+    rep.rule = "strings are concatenations of XML/HTML/JSON metacharacters, hostile fragments (]]>, &amp;, \
+                <script>, \"/>, \\u0022, template syntax), alphanumeric runs and non-ASCII characters (1-4 byte \
+                UTF-8), lengths 0 to ~90 kB; esc: one string through every real escape routine and the model \
+                (non-trivial = contains a character some table escapes); dec: escaped strings, half of them \
+                broken by inserted entity / escape fragments (non-trivial = broken); report: 1-4 files in 1-3 \
+                hostile directories with hostile function names and source lines through the five real writers, \
+                read back by expat / json / html.parser and compared with the names and with a benign twin \
+                (non-trivial = some name contains a metacharacter)".into();
+    let mut r1 = rng.fork();
+    let mut r2 = rng.fork();
+    let mut r3 = rng.fork();
+    esc_stream(rep, &mut r1);
+    dec_stream(rep, &mut r2);
+    report_stream(rep, &mut r3);
+    rep.notes.push("the quantifier excludes control characters: the esc/dec streams include them (the routines are total), the report stream does not".into());
+}
+
+pub fn replay(rep: &mut Report, case: &Value) {
+    std::env::set_var("GIT_DIR", "/nonexistent-c18");
+    match case["op"].as_str().unwrap_or("") {
+        "esc" => {
+            let name = String::from_utf8(unhex(case["name"].as_str().unwrap_or(""))).unwrap_or_default();
+            let routine = case["routine"].as_str().unwrap_or("").to_string();
+            let wd = rep.workdir.clone();
+            let o = match guarded(AssertUnwindSafe(|| impl_one(&routine, &name, &wd))) {
+                Ok(r) => r,
+                Err(p) => Err(format!("panic {}", p)),
+            };
+            let req = format!("{} x{}", routine, hex(name.as_bytes()));
+            let m = run_model_named("gm_c18", &[req.clone()], &rep.workdir, "replay");
+            rep.case(&req, true);
+            let orc = match &o {
+                Ok(ans) => match unx(ans) {
+                    Some(out) => oracle_escaped(&routine, &name, &out),
+                    None => Some("not UTF-8".into()),
+                },
+                Err(e) => Some(e.clone()),
+            };
+            if let Some(w) = orc {
+                rep.fail("oracle", None, w, case.clone());
+            } else if o.as_ref().ok() != Some(&m[0]) {
+                rep.disagreements_checked += 1;
+                rep.fail("disagreement", None, format!("{} differs from the model", routine), case.clone());
+            }
+        }
+        "dec" => {
+            let req = case["request"].as_str().unwrap_or("").to_string();
+            let mut it = req.splitn(2, ' ');
+            let kind = it.next().unwrap_or("");
+            let input = it.next().and_then(unx).unwrap_or_default();
+            let out = dec_impl(kind, &input);
+            let m = run_model_named("gm_c18", &[req.clone()], &rep.workdir, "replay");
+            rep.case(&req, true);
+            if m[0] != out {
+                rep.disagreements_checked += 1;
+                rep.fail("disagreement", None, "reader model differs from the real parser".into(), case.clone());
+            }
+        }
+        "report" => {
+            if let Some(c) = case_from_json(case) {
+                let v = &evaluate_cases(rep, std::slice::from_ref(&c), "replay")[0];
+                rep.case(&case.to_string(), true);
+                if !v.failures.is_empty() {
+                    rep.fail("oracle", None, v.failures.join(" | "), case.clone());
+                }
+                if !v.finding_abs_prefix.is_empty() {
+                    rep.fail("oracle", Some(FINDING_ABS_PREFIX), v.finding_abs_prefix.join(" | "), case.clone());
+                }
+            } else {
+                rep.notes.push("malformed report case".into());
+            }
+        }
+        _ => rep.notes.push("unknown op in replay case".into()),
+    }
+}
 
 fn main() {
     corrlib::run_main("C18", run, replay);
